@@ -177,6 +177,119 @@ theorem no_ub (t : IntTy) (v : Int) (hv : t.holds v) :
     rw [h]; rfl
   · rw [stream_canonical t v hv]; rfl
 
+/-- Printing then parsing is exact: for every value of every signed or unsigned type, every base 2…36 and
+    both letter cases, the text `from_int`/`from_uint` returns, parsed in the same base by any `to_*`
+    member of the same signedness and at least the same width, gives the original value with `ok` and
+    `full_match` both set; the overload without a result returns the value too.  (`to_long`,
+    `to_long_long`, `to_int64` are `.s64`/`.sll`; the most negative value is included.) -/
+theorem roundtrip (t : IntTy) (base : Nat) (hb : ValidBase base) (upper : Bool) (v : Int) (hv : t.holds v)
+    (t' : IntTy) (hs : t'.signed = t.signed) (hwide : t.bits ≤ t'.bits) :
+    ∃ text, fromInt t base upper v = .ok text ∧
+      toIntTyR t' text base = (v, { ok := true, fullMatch := true }) ∧ toIntTy t' text base = v := by
+  by_cases ht : t.signed = true
+  · have ht' : t'.signed = true := by rw [hs, ht]
+    refine ⟨intText base upper v, from_int_canonical t ht base hb upper v hv, ?_⟩
+    have hv64 : -(2 ^ 63 : Int) ≤ v ∧ v < (2 ^ 63 : Int) := by
+      cases t <;> simp [IntTy.signed] at ht <;> simp [IntTy.holds, IntTy.signed, IntTy.bits] at hv ⊢ <;> omega
+    have hl := strtol_intText base hb.1 hb.2 upper v hv64
+    have hne : (intText base upper v).isEmpty = false := by
+      cases h : intText base upper v with
+      | nil => exact absurd h (intText_length_pos base upper v)
+      | cons a b => rfl
+    have hnarrow : toSigned t'.bits (wrapW 64 v) = v := by
+      cases t' <;> simp [IntTy.signed] at ht' <;> cases t <;> simp [IntTy.signed] at ht <;>
+        simp [IntTy.bits] at hwide <;> simp [IntTy.holds, IntTy.signed, IntTy.bits] at hv ⊢ <;>
+        (unfold toSigned wrapW; omega)
+    have hlen : (intText base upper v).length ≠ 0 := fun h => intText_length_pos base upper v (List.eq_nil_of_length_eq_zero h)
+    refine ⟨?_, ?_⟩
+    · unfold toIntTyR toLongR
+      simp only [ht', if_true, hne, hl, flagsOf, Bool.false_eq_true, if_false, hnarrow]
+      simp [hlen]
+    · unfold toIntTy toLong
+      simp only [ht', if_true, hl, hnarrow]
+  · have htf : t.signed = false := by simpa using ht
+    have ht' : t'.signed = false := by rw [hs, htf]
+    have hnn : v.natAbs = v := by
+      cases t <;> simp [IntTy.signed] at htf <;> simp [IntTy.holds, IntTy.signed] at hv <;> omega
+    refine ⟨natText base upper v.natAbs, from_uint_canonical t htf base hb upper v hv, ?_⟩
+    have hv64 : v.natAbs < 2 ^ 64 := by
+      have := natAbs_lt t v hv
+      have h2 : (2 : Nat) ^ t.bits ≤ 2 ^ 64 := Nat.pow_le_pow_right (by omega) (by cases t <;> simp [IntTy.bits])
+      omega
+    have hl := strtoul_natText base hb.1 hb.2 upper v.natAbs hv64
+    have hne : (natText base upper v.natAbs).isEmpty = false := by
+      cases h : natText base upper v.natAbs with
+      | nil => exact absurd h (natText_ne_nil base upper _)
+      | cons a b => rfl
+    have hnarrow : ((v.natAbs % 2 ^ t'.bits : Nat) : Int) = v := by
+      have h1 := natAbs_lt t v hv
+      have h2 : (2 : Nat) ^ t.bits ≤ 2 ^ t'.bits := Nat.pow_le_pow_right (by omega) hwide
+      rw [Nat.mod_eq_of_lt (by omega)]; exact hnn
+    have hlen : (natText base upper v.natAbs).length ≠ 0 := fun h => natText_ne_nil base upper _ (List.eq_nil_of_length_eq_zero h)
+    refine ⟨?_, ?_⟩
+    · unfold toIntTyR toUlongR
+      simp only [ht', hne, hl, flagsOf, Bool.false_eq_true, if_false, hnarrow]
+      simp [hlen]
+    · unfold toIntTy toUlong
+      simp only [ht', hl, hnarrow]
+      simp
+
+/-- Meaning of the flags for arbitrary text: the empty string is a full match without `ok` (value 0);
+    otherwise the value is what `strtol`/`strtoul` return on the C string, narrowed to the result type,
+    `ok` ⇔ at least one character was consumed and `full_match` ⇔ the number consumed equals `size()`;
+    the overload without a result returns the same value. -/
+theorem flags_meaning (t : IntTy) (s : List Nat) (base : Nat) :
+    (s = [] → toIntTyR t s base = (0, { ok := false, fullMatch := true })) ∧
+    (s ≠ [] → t.signed = true →
+      toIntTyR t s base = (toSigned t.bits (wrapW 64 (strtol s base).value),
+        { ok := decide ((strtol s base).endp ≠ 0), fullMatch := decide ((strtol s base).endp = s.length) })) ∧
+    (s ≠ [] → t.signed = false →
+      toIntTyR t s base = ((((strtoul s base).value % 2 ^ t.bits : Nat) : Int),
+        { ok := decide ((strtoul s base).endp ≠ 0), fullMatch := decide ((strtoul s base).endp = s.length) })) ∧
+    (s ≠ [] → toIntTy t s base = (toIntTyR t s base).1) := by
+  refine ⟨fun h => ?_, fun h ht => ?_, fun h ht => ?_, fun h => ?_⟩
+  · subst h
+    unfold toIntTyR toLongR toUlongR
+    cases t <;> simp [IntTy.signed, toSigned, wrapW]
+  · cases s with
+    | nil => exact absurd rfl h
+    | cons a r => unfold toIntTyR toLongR flagsOf; simp [ht]
+  · cases s with
+    | nil => exact absurd rfl h
+    | cons a r => unfold toIntTyR toUlongR flagsOf; simp [ht]
+  · cases s with
+    | nil => exact absurd rfl h
+    | cons a r =>
+      unfold toIntTy toIntTyR toLongR toUlongR toLong toUlong
+      by_cases ht : t.signed = true <;> simp [ht]
+
+/-- Narrowing: `to_short`/`to_int` are `static_cast`s of `to_long` (two's-complement reduction),
+    `to_ushort`/`to_uint` of `to_ulong`, with the same flags; a value that fits the narrower type is
+    returned unchanged. -/
+theorem narrowing (t : IntTy) (s : List Nat) (base : Nat) (hbase : base = 0 ∨ 2 ≤ base) :
+    (t.signed = true → (toIntTyR t s base).1 = toSigned t.bits (wrapW 64 (toIntTyR .s64 s base).1) ∧
+      (toIntTyR t s base).2 = (toIntTyR .s64 s base).2) ∧
+    (t.signed = false → (toIntTyR t s base).1 = (((toIntTyR .u64 s base).1.toNat % 2 ^ t.bits : Nat) : Int) ∧
+      (toIntTyR t s base).2 = (toIntTyR .u64 s base).2) ∧
+    (∀ x : Int, t.holds x → (if t.signed then toSigned t.bits (wrapW 64 x) else ((x.toNat % 2 ^ t.bits : Nat) : Int)) = x) := by
+  refine ⟨fun ht => ?_, fun ht => ?_, fun x hx => ?_⟩
+  · have hrange : -(2 ^ 63 : Int) ≤ (toLongR s base).1 ∧ (toLongR s base).1 < 2 ^ 63 := by
+      unfold toLongR
+      by_cases he : s.isEmpty = true
+      · simp [he]
+      · simp only [he]; exact strtol_value_range s base
+    have h64 : toSigned 64 (wrapW 64 (toLongR s base).1) = (toLongR s base).1 := by
+      unfold toSigned wrapW; omega
+    cases t <;> simp [IntTy.signed] at ht <;> simp [toIntTyR, IntTy.signed, IntTy.bits, h64]
+  · have hrange : (toUlongR s base).1 < 2 ^ 64 := by
+      unfold toUlongR
+      by_cases he : s.isEmpty = true
+      · simp [he]
+      · simp only [he]; exact strtoul_value_lt s base hbase
+    cases t <;> simp [IntTy.signed] at ht <;> simp [toIntTyR, IntTy.signed, IntTy.bits, Nat.mod_eq_of_lt hrange]
+  · cases t <;> simp [IntTy.holds, IntTy.signed, IntTy.bits] at hx ⊢ <;>
+      first | (unfold toSigned wrapW; omega) | omega
+
 /-! The pinned tree (before repair 1061812) violated `no_ub`: `std::abs` of the most negative value. -/
 
 /-- witness of defect #12 in `ST::format`: `format_numeric_s<int>` at `INT_MIN` -/
@@ -187,5 +300,17 @@ theorem pinned_stream_ub_witness : Pinned.streamSigned 64 (-9223372036854775808)
 
 /-- 16-bit values were never affected: `std::abs` acts on the promoted `int` -/
 example : Pinned.formatNumericS 16 .dflt (-32768) = .ok [45, 51, 50, 55, 54, 56] := by decide
+
+/-! non-vacuity: the hypotheses are satisfiable and the most negative values go through every printer -/
+example : IntTy.s32.holds (-2147483648) ∧ ValidBase 36 := ⟨by decide, by unfold ValidBase; omega⟩
+example : fromInt .s32 10 false (-2147483648) = .ok [45, 50, 49, 52, 55, 52, 56, 51, 54, 52, 56] := by decide
+example : formatInt .s32 .dflt (-2147483648) = .ok [45, 50, 49, 52, 55, 52, 56, 51, 54, 52, 56] := by decide
+example : streamInt .s32 (-2147483648) = .ok [45, 50, 49, 52, 55, 52, 56, 51, 54, 52, 56] := by decide
+example : toIntTyR .s32 [45, 50, 49, 52, 55, 52, 56, 51, 54, 52, 56] 10 = (-2147483648, { ok := true, fullMatch := true }) := by decide
+example : toIntTyR .s64 [] 0 = (0, { ok := false, fullMatch := true }) := by decide
+/-- "0x" alone: one character consumed (glibc 2.36), `ok` without `full_match` -/
+example : toIntTyR .s64 [48, 120] 16 = (0, { ok := true, fullMatch := false }) := by decide
+/-- saturation with ERANGE, then narrowing: `to_int("99999999999999999999")` is `(int)LONG_MAX = -1` -/
+example : toIntTyR .s32 (List.replicate 20 57) 10 = (-1, { ok := true, fullMatch := true }) := by decide
 
 end StVerif.Props.C12
